@@ -180,8 +180,9 @@ def run_property(prop, tier, seed, ck, no_bounded=False):
         print(ln)
 
     # ------------------------------------------------------------------ evidence
-    n_obl = (rep['n_obligations'] if rep else 0) + len(frame_obls)
-    n_dis = (rep['n_discharged'] if rep else 0) + sum(1 for f in frame_obls if f['status'] == 'discharged')
+    counted = [f for f in frame_obls if f.get('kind') != 'sampled']   # sampled side checks are never counted as proved
+    n_obl = (rep['n_obligations'] if rep else 0) + len(counted)
+    n_dis = (rep['n_discharged'] if rep else 0) + sum(1 for f in counted if f['status'] == 'discharged')
     cov['obligations'] = n_obl
     cov['discharged'] = n_dis
     cov['checker_cmd'] = f'python3-vt check.py {prop} --tier {tier}'
@@ -197,7 +198,7 @@ def run_property(prop, tier, seed, ck, no_bounded=False):
         cov['solver_time_s'] = rep['solver_time_s']
         cov['smt_queries'] = rep['n_queries']
     if frame_obls:
-        cov['frame_obligations'] = [{k: v for k, v in f.items() if k in ('name', 'status', 'detail', 'sites')}
+        cov['frame_obligations'] = [{k: v for k, v in f.items() if k in ('name', 'status', 'detail', 'sites', 'kind', 'backend')}
                                     for f in frame_obls]
     samples = []
     if rep:
